@@ -107,7 +107,7 @@ Inductive aval := VWord (w : Z) | VBytes (l : list Z) | VArr (ws : list Z).
 
 Definition decode_arg (t : aty) (arr : bool) (args : list Z) (i : Z) : option aval :=
   if is_dyn t then
-    if arr then None  (* bytes[] / string[]: nested dynamic arrays, see Props: not implemented by halmos *)
+    if arr then None  (* bytes[] / string[]: nested dynamic arrays, see Props: not supported by halmos (the path is stuck) *)
     else option_map VBytes (dyn_bytes args i)
   else if arr then
     bind (dyn_words args i) (fun ws => if forallb (valid_word t) ws then Some (VArr ws) else None)
@@ -192,7 +192,7 @@ Inductive handler :=
   | HWord (bop : string) (log : bool)        (* one-word operands at calldata 4 and 36 *)
   | HBytes (bop : string) (log : bool)       (* bytes / string operands *)
   | HArr (bop : string) (log : bool)         (* T[] with one-word T *)
-  | HNotImpl (bop : string) (typ : string)   (* bytes[] / string[]: raises NotImplementedError *)
+  | HNotImpl (bop : string) (typ : string)   (* bytes[] / string[]: not supported, the handler raises *)
   | HUnary (expected : bool) (log : bool).   (* assertTrue / assertFalse *)
 
 (* operator name used by halmos' mk_cond: Eq/NotEq, or U|S ++ Lt/Gt/Le/Ge by signedness *)
@@ -206,3 +206,25 @@ Definition expected_handler (d : descr) : handler :=
   else if is_dyn (d_ty d) then
     if d_arr d then HNotImpl (expected_bop d) (ty_name (d_ty d)) else HBytes (expected_bop d) (d_msg d)
   else if d_arr d then HArr (expected_bop d) (d_msg d) else HWord (expected_bop d) (d_msg d).
+
+(* ------------------------------------------------------------------ a test body as a sequence *)
+(* A test that issues assume / assert cheatcodes one after the other, as Foundry runs it on ONE
+   input i: execution stops at the first assertion whose relation is false (the test FAILS for
+   i), at the first assumption that does not hold (i is REJECTED: neither pass nor fail), or at
+   a cheatcode the tool under verification does not support (no verdict may be claimed for i:
+   it must be neither passed nor dropped silently). *)
+Section SeqSpec.
+  Variable Input : Type.
+  Inductive pstep :=
+    | PAssert (c : Input -> bool)
+    | PAssume (c : Input -> bool)
+    | PUnsupported.
+  Inductive verdict := VPass | VFail | VRejected | VUnsupported.
+  Fixpoint foundry_run (i : Input) (p : list pstep) : verdict :=
+    match p with
+    | [] => VPass
+    | PAssert c :: r => if c i then foundry_run i r else VFail
+    | PAssume c :: r => if c i then foundry_run i r else VRejected
+    | PUnsupported :: _ => VUnsupported
+    end.
+End SeqSpec.
